@@ -257,13 +257,16 @@ Proof.
   destruct (set_props crc allow u name u true (OBody d re) (restart crc st)) as [[rs er] st']. cbn [snd]. tauto.
 Qed.
 
-(** The witness: block list 1 holds [good] and has been disabled
-    ([SetExamples.st_off]); the process restarts; the list is enabled again and
-    its source delivers [good].  With disabled lists loaded at start-up the
-    entry carries the checksum of its file, the download counts as "no
-    change", which [filterSetProperties] reads as "no rules": the file is
-    removed, no rule of the list is in force, and a later refresh with the
-    same content sees "no change" again. *)
+(** The witness.  Block list 1 holds the two rules "ab", "c" and has been
+    disabled; the process restarts; the list is enabled again and its source
+    now delivers "a", "bc".  The checksum is the CRC of the rule lines
+    concatenated, so both texts have the same one.  With disabled lists loaded
+    at start-up the entry carries the checksum of its file, the download counts
+    as "no change" and the file with the OLD rules stays in force; the code
+    (disabled lists not loaded: checksum zero) stores the new text.  (Until fix
+    7322afe the "no change" case removed the file whatever the checksum; with
+    [good] stored and delivered the variant then lost the file, see
+    Proofs/RefreshOverlap.v for that removal; now it keeps it.) *)
 Module LoadDisabled.
   Import RExamples SetExamples.
   Definition st_up := restart_v crc32_update true st_off.
@@ -272,6 +275,13 @@ Module LoadDisabled.
   (* the code as it is *)
   Definition st_up_ok := restart crc32_update st_off.
   Definition st_on_ok := snd (set_props crc32_update false 1 [120] 1 true (OBody good false) st_up_ok).
+  (* equal checksums, different rules *)
+  Definition ab_c : bytes := [97; 98; 10; 99; 10].
+  Definition a_bc : bytes := [97; 10; 98; 99; 10].
+  Definition c1 := refresh crc32_update true true true all (fun _ => OBody ab_c false) st0.
+  Definition c_off := snd (set_props crc32_update false 1 [120] 1 false OOpenErr c1).
+  Definition c_on' := snd (set_props crc32_update false 1 [120] 1 true (OBody a_bc false) (restart_v crc32_update true c_off)).
+  Definition c_on_ok := snd (set_props crc32_update false 1 [120] 1 true (OBody a_bc false) (restart crc32_update c_off)).
 End LoadDisabled.
 
 Example load_disabled_example :
@@ -283,31 +293,37 @@ Example load_disabled_example :
   fget 1 (r_files LoadDisabled.st_on_ok) = Some RExamples.good /\
   verdict (r_engine LoadDisabled.st_on_ok) [112;49] = 2 /\
   lookup 1 (e_block (r_engine LoadDisabled.st_on_ok)) = Some RExamples.good /\
-  (* the variant: the disabled list is loaded; enabling removes the file for good *)
+  (* the variant: the disabled list is loaded; enabling it with the stored content keeps the file *)
   map f_count (r_block LoadDisabled.st_up) = [1] /\
   map f_sum (r_block LoadDisabled.st_up) <> [0] /\
   r_files LoadDisabled.st_up = r_files SetExamples.st_off /\
   fst (set_props crc32_update false 1 [120] 1 true (OBody RExamples.good false) LoadDisabled.st_up) = (true, false) /\
-  fget 1 (r_files LoadDisabled.st_on') = None /\
+  fget 1 (r_files LoadDisabled.st_on') = Some RExamples.good /\
   map f_enabled (r_block LoadDisabled.st_on') = [true] /\
   map f_count (r_block LoadDisabled.st_on') = [1] /\
-  lookup 1 (e_block (r_engine LoadDisabled.st_on')) = None /\
-  fget 1 (r_files LoadDisabled.st_later) = None.
+  lookup 1 (e_block (r_engine LoadDisabled.st_on')) = Some RExamples.good /\
+  fget 1 (r_files LoadDisabled.st_later) = Some RExamples.good /\
+  (* ... but content with the same checksum and other rules is not stored by the variant *)
+  p_sum (fst (parse crc32_update LoadDisabled.ab_c false)) = p_sum (fst (parse crc32_update LoadDisabled.a_bc false)) /\
+  fget 1 (r_files LoadDisabled.c_off) = Some LoadDisabled.ab_c /\
+  fget 1 (r_files LoadDisabled.c_on') = Some LoadDisabled.ab_c /\
+  lookup 1 (e_block (r_engine LoadDisabled.c_on')) = Some LoadDisabled.ab_c /\
+  fget 1 (r_files LoadDisabled.c_on_ok) = Some LoadDisabled.a_bc /\
+  lookup 1 (e_block (r_engine LoadDisabled.c_on_ok)) = Some LoadDisabled.a_bc.
 Proof. vm_compute. repeat split; congruence. Qed.
 
 Theorem reenable_keeps_file_loading_disabled_refuted :
   ~ reenable_keeps_file_statement crc32_update (restart_v crc32_update true).
 Proof.
   intros H.
-  specialize (H false 1 1 [120] RExamples.good false (fst (parse crc32_update RExamples.good false))
-                SetExamples.st_off [] (hd (RExamples.mk 0) (r_block SetExamples.st_off)) []).
-  assert (E : fget 1 (r_files LoadDisabled.st_on') = Some RExamples.good).
+  specialize (H false 1 1 [120] LoadDisabled.a_bc false (fst (parse crc32_update LoadDisabled.a_bc false))
+                LoadDisabled.c_off [] (hd (RExamples.mk 0) (r_block LoadDisabled.c_off)) []).
+  assert (E : fget 1 (r_files LoadDisabled.c_on') = Some LoadDisabled.a_bc).
   { apply H; try (vm_compute; reflexivity).
     - vm_compute. repeat constructor; cbn; intuition discriminate.
     - constructor.
     - vm_compute. discriminate. }
-  destruct load_disabled_example as (_ & _ & _ & _ & _ & _ & _ & _ & _ & _ & _ & N & _).
-  rewrite N in E. discriminate E.
+  vm_compute in E. discriminate E.
 Qed.
 
 (** Non-vacuity: restarts inside a history; [st1] after a restart is [st1]
